@@ -27,6 +27,8 @@ HARNESSES += _load("blk_common").ima_harnesses(("SEL_SEEKREAD",))
 HARNESSES += _load("blk_common").ms_harnesses(("SEL_SEEKREAD",))
 # ALAC staging layer (K-block contract for the bit-stream library)
 HARNESSES += _load("blk_common").alac_stage_harnesses(("SEL_SEEK", "SEL_READ"))
+# seek target arithmetic of the block codecs whose decoder is reached through a function pointer (stubbed here)
+HARNESSES += _load("blk_common").codec_seek_harnesses()
 # staging wrappers of the 16-bit block codecs (IMA, MS, GSM 06.10, G.72x, NMS)
 HARNESSES += _load("blk_common").stage_generic_harnesses(("SEL_READ",))
 # XI DPCM delta kernels: the predictor state carried between calls
